@@ -563,7 +563,7 @@ func c08EncoderState(c *Ctx, p *Program) {
 	c08FrameNormalise(c, p)
 	for _, r := range rows {
 		if !r.used {
-			c.Stale("animstate:"+r.typ+":"+r.loc)
+			c.Stale("animstate:" + r.typ + ":" + r.loc)
 		}
 	}
 }
